@@ -28,6 +28,8 @@ def generate_inproc(req: plugin_pb2.CodeGeneratorRequest) -> plugin_pb2.CodeGene
     from gapic import generator
     from gapic.schema import api
     from gapic.utils import Options
+    # API.build renames `fd.name` of the request's files in place: always work on a private copy
+    req = plugin_pb2.CodeGeneratorRequest.FromString(req.SerializeToString())
     with warnings.catch_warnings():
         warnings.simplefilter("ignore")
         opts = Options.build(req.parameter)
@@ -43,6 +45,7 @@ def build_api(req: plugin_pb2.CodeGeneratorRequest):
     _stub_pandoc()
     from gapic.schema import api
     from gapic.utils import Options
+    req = plugin_pb2.CodeGeneratorRequest.FromString(req.SerializeToString())
     with warnings.catch_warnings():
         warnings.simplefilter("ignore")
         opts = Options.build(req.parameter)
